@@ -8,7 +8,7 @@ P=$(readlink -f "$1"); L=${2:-$(basename "$(dirname "$P")")}
 WT=/tmp/benignchk/$L-$$
 rm -rf "$WT"; mkdir -p /tmp/benignchk; rsync -a --exclude .git /repo/ "$WT/"
 trap 'rm -rf "$WT" /tmp/benignchk/out-$L-$$' EXIT
-( cd "$WT" && git init -q . && git apply --whitespace=nowarn "$P" ) 2>/tmp/benignchk/$L.apply.err || { echo "$L: APPLY FAILED $(head -c 200 /tmp/benignchk/$L.apply.err)"; exit 3; }
+( cd "$WT" && git init -q . && { git apply --whitespace=nowarn "$P" || patch -p1 -s -F3 --no-backup-if-mismatch < "$P"; } ) 2>/tmp/benignchk/$L.apply.err || { echo "$L: APPLY FAILED $(head -c 200 /tmp/benignchk/$L.apply.err)"; exit 3; }
 rm -rf "$WT/.git"
 (cd "$WT" && go build ./... 2>&1 | tail -3) | grep -q . && { echo "$L: BUILD FAILED"; exit 3; }
 if [ "${SUITE:-1}" = 1 ]; then
